@@ -212,7 +212,16 @@ namespace nmtools::array
                 // reduce all to single scalar
 
                 // vertical op
-                auto reg = op.set1(0);
+                // NOTE: start from the operation's identity (1 for multiply), like the per-axis path below, not from 0
+                auto full_identity = [&]()->element_type{
+                    using op_type = meta::remove_cvref_t<decltype(view.op)>;
+                    if constexpr (meta::has_identity_v<op_type>) {
+                        return view.op.identity();
+                    } else {
+                        return 0;
+                    }
+                }();
+                auto reg = op.set1(full_identity);
                 for (size_t i=0; (i+N)<=size; i+=N) {
                     const auto operand = op.loadu(&inp_data_ptr[i]);
                     reg = op.eval(reg,operand);
